@@ -33,6 +33,10 @@ def configs(tier, seed):
             if tier == 'thorough' or (o == 'saturate') == ((n + f) % 2 == 0):      # contracts assume no overflow: alternate the mode in quick
                 out.append(_cfg('contract', s, n, f, r, o, 'pyfloat', G))
                 out.append(_cfg('contract', s, n, f, r, o, 'pyint'))
+            if o == 'saturate' and (tier == 'thorough' or rng.random() < 0.25):
+                c = _cfg('contract', s, n, f, r, o, 'pyfloat', 16)
+                c['wrap'] = rng.choice(('list', 'tuple', 'ndarray', 'float32'))
+                out.append(c)
             if tier == 'thorough' or rng.random() < 0.5:
                 out.append(_cfg('idem', s, n, f, r, o))
             if o == 'saturate' and (tier == 'thorough' or rng.random() < 0.3):
@@ -58,7 +62,10 @@ def _vspec(cfg, name):
 
 def inputs(cfg):
     if cfg['part'] == 'contract':
-        return {'v': _vspec(cfg, 'v')}
+        sp = _vspec(cfg, 'v')
+        if cfg.get('wrap') == 'float32':
+            sp = dict(sp, sig=24, lo=max(sp['lo'], -(1 << 40)), hi=min(sp['hi'], 1 << 40))
+        return {'v': sp}
     if cfg['part'] == 'mono':
         return {'v1': _vspec(cfg, 'v1'), 'v2': _vspec(cfg, 'v2')}
     lo, hi = SP.limits(cfg['signed'], cfg['n_word'])
@@ -83,7 +90,17 @@ def run(F, cfg, inp):
     f = cfg['n_frac']
     if cfg['part'] == 'contract':
         x = _mk(F, cfg)
-        x.set_val(inp['v'])
+        v = inp['v']
+        w = cfg.get('wrap')
+        if w == 'list':
+            v = [v]                     # the same value inside a container (the object may keep state from its construction)
+        elif w == 'tuple':
+            v = (v,)
+        elif w == 'ndarray':
+            v = C.mk_array(F, 'float64' if cfg['carrier'] == 'pyfloat' else 'int64', [v])
+        elif w == 'float32':
+            v = C.mk_scalar(F, 'float32', v)
+        x.set_val(v)
         return dict(q=O.snap(x.val), value=O.snap(x.get_val()), status=_st(x))
     if cfg['part'] == 'mono':
         x1, x2 = _mk(F, cfg), _mk(F, cfg)
